@@ -121,11 +121,71 @@ def _prog_body(case):
                       lambda kind: f"C04|program|{kind}", json.dumps(prog), ["composition"])
 
 
+def _container_body(c):
+    """Container arguments (C12's nested structures and access programs: indices, negative indices, slices with steps, dict keys, unpacking):
+    the tangent forward mode returns for a direction v equals the pairing of the reverse-mode gradient with v, leaf by leaf, and both
+    modes are linear - no reference values involved."""
+    import autograd
+    import autograd.builtins as ab
+    import autograd.numpy as anp
+
+    from ..case import describe_exc, from_autograd
+    from . import c12
+
+    struct = c12.gen_struct(c, c.int(1, 3))
+    lstructs = c12.leaf_structs(struct)
+    if not lstructs:
+        return Outcome("numpy_rejects", detail="no leaves")
+    vseed = c.seed()
+    shapes = [tuple(s_[1]) if s_[0] == "a" else () for s_ in lstructs]
+    vals, _ = values.generic(vseed, shapes, -1.5, 1.5)
+    Cs = [values.direction(vseed, sh, 90 + i) for i, sh in enumerate(shapes)]
+    v0 = c12.build(struct, lambda i, s_: float(vals[i]) if s_[0] == "f" else onp.array(vals[i]), [0])
+    idv = c12.build(struct, lambda i, s_: i, [0])
+    uses = []
+    for _ in range(c.int(1, 4)):
+        ops, leaf = c12.gen_access(c, idv)
+        if ops is not None:
+            uses.append((ops, leaf))
+    if not uses:
+        return Outcome("numpy_rejects", detail="no reachable leaf")
+    sample = {"struct": struct, "uses": [[ops, leaf] for ops, leaf in uses], "vseed": vseed}
+    bucket = lambda k: f"C04|container|{k}"
+
+    def f(v):
+        terms = [anp.sum(c12.apply_access(ops, v, ab) * Cs[leaf]) for ops, leaf in uses]
+        S = terms[0]
+        for t_ in terms[1:]:
+            S = S + t_ * 0.5
+        return S + anp.sin(0.3 * S)
+
+    tang = c12.build(struct, lambda i, s_: float(values.direction(vseed, (), 120 + i)) if s_[0] == "f" else values.direction(vseed, shapes[i], 120 + i), [0])
+    try:
+        g = autograd.grad(f)(v0)
+        t1 = float(autograd.make_jvp(f)(v0)(tang)[1])
+    except Exception as e:
+        if not from_autograd(e):
+            raise
+        if c12._missing(e):
+            return raised(e, "container", sample=sample)
+        return fail("unexpected_exception", describe_exc(e), bucket("exception"), sample=sample)
+    try:
+        pair = sum(float(onp.sum(onp.asarray(a_, dtype=float) * onp.asarray(b_, dtype=float))) for a_, b_ in zip(c12.leafwise(g), c12.leafwise(tang)))
+    except Exception as e:
+        return fail("not_adjoint", f"the reverse-mode gradient cannot be paired with a direction of the argument's structure: {e}", bucket("structure"), sample=sample)
+    if not abs(pair - t1) <= 1e-10 * max(1.0, abs(t1), abs(pair)):
+        return fail("not_adjoint", f"forward mode gives {t1!r} for a direction v, the reverse-mode gradient pairs with v to {pair!r}", bucket("not_adjoint"), sample=sample)
+    opnames = sorted({op[1] for ops, _ in uses for op in ops})
+    c.features.update(ops=opnames)
+    return ok(nontrivial=bool(opnames), key=json.dumps([struct, [[ops, leaf] for ops, leaf in uses]]), labels=["container"] + ["op=" + o for o in opnames], sample=sample)
+
+
 def tests():
     out = []
     for name, t in sorted(TEMPLATES.items()):
         out.append(Test("adj:" + name, partial(_body, t), quick=150 * t.weight, thorough=1000 * t.weight, shard_size=200))
     out.append(Test("adj:programs", _prog_body, quick=600, thorough=10000, shard_size=150))
+    out.append(Test("adj:containers", _container_body, quick=2500, thorough=15000, shard_size=250))
     return out
 
 
